@@ -12,3 +12,6 @@ def run(rep, W, ctx):
     # enforces whatever list it was given (the C16 obligations: helper decision table, dominance, immutability)
     from rules import http as H
     H.c16(rep, W)
+    # "applies the given snapshot targets": below main(), the config reaches the two classifiers unchanged
+    from rules import shared as S
+    S.c17_targets(rep, W)
